@@ -161,3 +161,15 @@ func IsErrorType(t types.Type) bool {
 func (e *Engine) QueryProfile() string {
 	return fmt.Sprintf("true: n=%v t=%v ; false: n=%v t=%v ; fast=%d", e.it.nTrue, e.it.tTrue, e.it.nFalse, e.it.tFalse, e.it.nFast)
 }
+
+// Has reports whether value v was computed on this path (its defining instruction executed).
+func (d *Disjunct) Has(v ssa.Value) bool {
+	_, ok := d.d.vals[valKey{d.f, v}]
+	return ok
+}
+
+// ErrIsNil reports whether the error-typed value v is known to be nil on this path.
+func (d *Disjunct) ErrIsNil(v ssa.Value) bool {
+	isNil, known := d.IsNilKnown(v)
+	return known && isNil
+}
